@@ -7,6 +7,7 @@ running it, the first call's value stays usable, the recorded result type matche
 read back, exceptions are recorded and replayed, forgetting a call makes exactly it run again."""
 import datetime
 import math
+import gc
 import os
 import random
 import shutil
@@ -60,7 +61,7 @@ def gen_desc(rng, depth=0):
         return {"k": "series", "v": rng.choice([[1, 2, 3], [1.5, None, 3.0], ["x", "y"], []]), "index": None, "dtype": rng.choice([None, "float32"]) if rng.random() < 0.3 else None}
     if x < 0.97:
         return {"k": "df", "v": [["a", [1, 2]], ["b", ["x", "é"]]] if rng.random() < 0.7 else [["a", []]], "index": rng.choice([None, ["r1", "r2"]])}
-    return {"k": "part", "v": [[k, gen_desc(rng, 2)] for k in rng.sample(["k1", "k2", "k3"], rng.randint(0, 3))]}
+    return {"k": rng.choice(["part", "part", "odpart"]), "v": [[k, gen_desc(rng, 2)] for k in rng.sample(["k1", "k2", "k3"], rng.randint(0, 3))]}
 
 
 def fix_desc(d):
@@ -151,6 +152,10 @@ def run(tier, seed):
                     ({"k": "part", "v": [["k1", {"k": "str", "v": "y" * 300}], ["k2", {"k": "int", "v": 3}]]}, "fs_tinycache", "normal"),
                     ({"k": "part", "v": [["k1", {"k": "nd", "v": [2.5] * 80, "dtype": "float64", "shape": [80]}]]}, "fs_cache", "normal"),
                     ({"k": "str", "v": "z" * 2000}, "fs_tinycache", "normal"),
+                    ({"k": "odpart", "v": [["k1", {"k": "str", "v": "w" * 40}], ["k2", {"k": "int", "v": 5}]]}, "mem", "normal"),
+                    ({"k": "odpart", "v": [["k1", {"k": "nd", "v": [0.5] * 30, "dtype": "float64", "shape": [30]}]]}, "fs", "normal"),
+                    ({"k": "odpart", "v": [["k1", {"k": "str", "v": "w" * 400}]]}, "fs_tinycache", "normal"),
+                    ({"k": "odpart", "v": [["k1", {"k": "int", "v": 1}], ["k2", {"k": "int", "v": 2}]]}, "fs_cache", "force_local"),
                     ({"k": "nd", "v": [1.5] * 150, "dtype": "float64", "shape": [150]}, "mem", "ignore_result")]
         for vi in range(nval + len(targeted)):
             if vi < len(targeted):
@@ -192,6 +197,20 @@ def run(tier, seed):
                 rep.violation("C02:read-back-differs:%s" % desc["k"], "a later call returned %r (%s) instead of an equal %s %r" % (v2, type(v2).__name__, type(expected).__name__, expected), meta)
             if mod != "ignore_result" and not deep_equal(v3, expected):
                 rep.violation("C02:read-back-differs:%s" % desc["k"], "a later call through the modifier returned %r" % (v3,), meta)
+            # results handed out by later calls are dropped and collected: what is stored, and what the first call
+            # returned, must stay readable
+            try:
+                v2 = v3 = None
+                gc.collect()
+                v4 = f(spec)
+                if not deep_equal(v4, expected):
+                    rep.violation("C02:read-back-differs:%s" % desc["k"], "after the results of later calls were dropped and collected, a call returned %r instead of %r" % (v4, expected), meta)
+                if mod != "ignore_result" and not deep_equal(v1, expected):
+                    rep.violation("C02:first-call-value:%s" % desc["k"], "after the results of later calls were dropped and collected, the value the first call returned reads %r" % (v1,), meta)
+                v2 = v4
+            except Exception as e:
+                rep.violation("C02:read-raised-after-collect:%s" % desc["k"], "after the results of later calls were dropped and collected: %s: %s" % (type(e).__name__, str(e)[:150]), meta)
+                v2 = expected
             mm = f.memento(spec)
             if mm is None:
                 rep.violation("C02:no-memento:%s" % desc["k"], "no memento after the call", meta)
@@ -281,6 +300,12 @@ def run(tier, seed):
         for meta, r0 in zip(metas, res):
             if r0 is not None:
                 rep.violation("C02:differs-from-runner-model:%s" % what[r0].split()[0], "the %s differ from the runner model" % what[r0], meta)
+        # staged on-disk partitions remove their directories when collected: do that before the scratch root goes away
+        expected = v1 = v2 = v3 = v4 = held = mm = r = None
+        from twosigma.memento.storage_memory import MemoryStorageBackend
+        from . import fnlib
+        fnlib.set_env(m, scratch, {"fc": (MemoryStorageBackend(), None)})
+        gc.collect()
         rep.coverage.update({
             "evaluations": total, "distinct_nontrivial": len(set(terms)) + sum(1 for k in kinds),
             "rule": "(a) random call DAGs on memory / filesystem / filesystem+cache (1 MB and 400 B) vs the Coq runner model; (b) recursively generated result values (null, bool, ints incl. 10**30, floats incl. -0.0/NaN/inf, "
